@@ -74,8 +74,8 @@ type Op struct {
 type Hist struct {
 	Subs []Sub  `json:"subs"`
 	Ops  []Op   `json:"ops"`
-	TZ   int    `json:"tz,omitempty"`  // host zone offset in seconds (C02)
-	Seq  uint64 `json:"seq,omitempty"` // position of the global record counter at the start (C10)
+	TZ   int    `json:"tz,omitempty"`   // host zone offset in seconds (C02)
+	Seq  uint64 `json:"seq,omitempty"`  // position of the global record counter at the start (C10)
 	Base bool   `json:"base,omitempty"` // all subscribers share one case-unique SUPI base, even with an empty suffix
 }
 
